@@ -90,6 +90,20 @@ let c08_effective body =
                                c_include_empty = num ie <> 0; c_include_match = num im <> 0 })
   | _ -> failwith "c08-effective: bad case"
 
+(* should_exclude_prompts.  in: (PATTERN ...) (URL ...)|none ((PATTERN URL 0|1) ...)   out: 0|1
+   the third argument is the glob-matching table (an environment function for the model) *)
+let c08_excluded body =
+  match parse_many body with
+  | [ps; rs; tbl] ->
+      let t = List.map (fun e -> match list e with
+          | [p; u; v] -> ((string_of_bytes (str_of p), string_of_bytes (str_of u)), num v <> 0)
+          | _ -> failwith "glob entry") (list tbl) in
+      let glob p u = match List.assoc_opt (string_of_bytes p, string_of_bytes u) t with
+        | Some b -> b | None -> failwith "glob table has no entry" in
+      let remotes = match rs with Sym "none" -> None | x -> Some (List.map str_of (list x)) in
+      bool_s (should_exclude glob (List.map str_of (list ps)) remotes)
+  | _ -> failwith "c08-excluded: bad case"
+
 (* in: TOOL (METAKEY ...)   out: 0|1   (is the transcript kept inline in the working log?) *)
 let c08_stored body =
   match parse_many body with
@@ -169,6 +183,6 @@ let cas_cex () =
 
 let () = run_driver
     ["c08-tokens", c08_tokens; "c08-redact", c08_redact; "c08-secret", c08_secret;
-     "c08-prompts", c08_prompts; "c08-effective", c08_effective; "c08-stored", c08_stored;
+     "c08-prompts", c08_prompts; "c08-effective", c08_effective; "c08-excluded", c08_excluded; "c08-stored", c08_stored;
      "c08-run", c08_run]
     ["c08-seccharset", seccharset; "c08-inventory", inventory; "c08-cas-cex", cas_cex]
